@@ -22,7 +22,8 @@ EXPLANATION = (
     "is-not-None, because producers construct scalar failure cases and None outputs; (R4) every explicit `raise` "
     "reachable from a public validate entry outside a user-check fence raises a documented class (SchemaError, "
     "SchemaErrors, SchemaDefinitionError, SchemaInitError, TypeError for non-dataframes) or is one of the sites "
-    "enumerated in the confirmed table. NOT decided: implicit exceptions raised inside pandas/polars; "
+    "enumerated in the confirmed table. (R5) every Index.to_frame() conversion in the pandas backends allows duplicate level names (allow_duplicates=True or the shared _multiindex_to_frame helper), since it runs outside the user-check fence. R4 also discharges a raise under `X.attr is None` in a private helper when every reference to the helper sits under `X.attr is not None`. " 
+    "NOT decided: implicit exceptions raised inside pandas/polars; "
     "UnboundLocalError (definite assignment) - cross-reference only."
 )
 LEVEL_RULE = "one obligation per restore pattern / run_check site / typestate use / reachable raise statement"
